@@ -1306,7 +1306,7 @@ func (i valueImporter) importArrayValue(
 
 		elementSuperType := sema.LeastCommonSuperType(types...)
 		if elementSuperType == sema.InvalidType {
-			return nil, errors.NewUnexpectedError("cannot import array: elements do not belong to the same type")
+			return nil, errors.NewDefaultUserError("cannot import array: elements do not belong to the same type")
 		}
 
 		staticArrayType = interpreter.NewVariableSizedStaticType(
